@@ -48,6 +48,9 @@ type Channel struct {
 	// sent, Reset and the teardown sent by Close.
 	txLock *sync.Mutex
 	isClosing   bool
+	// tornDown is set under txLock once Close has sent the teardown (or
+	// the logout sequence is over): nothing may follow it on the wire.
+	tornDown bool
 
 	channelId int
 
@@ -225,6 +228,9 @@ func (tdsChan *Channel) Close() error {
 		if err := tdsChan.Logout(); err != nil {
 			me = multierror.Append(me, fmt.Errorf("error in logout sequence: %w", err))
 		}
+		tdsChan.txLock.Lock()
+		tdsChan.tornDown = true
+		tdsChan.txLock.Unlock()
 	} else {
 		// Closing of logical channels must be communicated using
 		// header-only packets
@@ -235,6 +241,9 @@ func (tdsChan *Channel) Close() error {
 		tdsChan.txLock.Lock()
 		tdsChan.CurrentHeaderType = TDS_BUF_CLOSE
 		err := tdsChan.sendPacket(teardown, true)
+		// A send that waited for the transmit lock while the teardown
+		// was written must not go out behind it.
+		tdsChan.tornDown = true
 		tdsChan.txLock.Unlock()
 
 		if err != nil {
@@ -608,6 +617,9 @@ func (tdsChan *Channel) QueuePackage(ctx context.Context, pkg Package) error {
 	}
 	tdsChan.txLock.Lock()
 	defer tdsChan.txLock.Unlock()
+	if tdsChan.tornDown {
+		return ErrChannelClosed
+	}
 
 	// Do not queue anything if the package cannot be sent anyway - it
 	// would be left behind and sent as part of the next message.
@@ -658,6 +670,9 @@ func (tdsChan *Channel) SendRemainingPackets(ctx context.Context) error {
 
 	tdsChan.txLock.Lock()
 	defer tdsChan.txLock.Unlock()
+	if tdsChan.tornDown {
+		return ErrChannelClosed
+	}
 
 	// SendRemainingPackets is only called when completing sending
 	// packets to the server and preparing to receive the answer.
